@@ -90,6 +90,14 @@ def edit_cases():
     fa = copy.deepcopy(fb)
     fa["workplaces"][0]["facilities"][0]["absence"] = [2, 3]
     out.append((fb, fa, "facility-absence-inplace"))
+    # rates agreed at a stop: nobody in the team / workplace is paid at the start; the second task's worker and machine get their rates before that task begins
+    rz = {"tasks": [{"name": "T0", "work": 4.0}, {"name": "T1", "work": 3.0, "nf": True}], "links": [[0, 1, "FS"]], "components": [{"name": "C0", "tasks": [1]}],
+          "workplaces": [{"name": "WP0", "cap": 1.0, "targets": [1], "facilities": [{"name": "F0", "skills": {"T1": 1.0}, "cost": 0.0}]}],
+          "teams": [{"name": "TM0", "targets": [0, 1], "workers": [{"name": "W0", "skills": {"T0": 1.0}, "cost": 0.0}, {"name": "W1", "skills": {"T1": 1.0}, "fskills": {"F0": 1.0}, "cost": 0.0}]}]}
+    rz2 = copy.deepcopy(rz)
+    rz2["teams"][0]["workers"][1]["cost"] = 8.0
+    rz2["workplaces"][0]["facilities"][0]["cost"] = 5.0
+    out.append((rz, rz2, "set-rates"))
     return out
 
 
@@ -155,6 +163,9 @@ def apply_edit(m, name):
         w = m.byname["W1"]
         m.byname["TM1"].worker_list.remove(w)
         m.byname["TM0"].add_worker(w)
+    elif name == "set-rates":
+        m.byname["W1"].cost_per_time = 8.0
+        m.byname["F0"].cost_per_time = 5.0
     elif name == "add-link":
         m.byname["T2"].append_input_task(m.byname["T0"])
 
